@@ -249,8 +249,22 @@ def sm_stage1(ctx, bag, st):
                         str(BAD_LOGIC), "sm:cmdwrap:parity", "btokSMCmdWrap at an even counter must return ERR_BAD_LOGIC")
     # every CLA value (the protected ones are refused)
     for cla in range(256):
-        want = str(BAD_APDU) if cla & 4 else r"0 %02x[0-9a-f]+" % (cla | 4)
+        want = str(BAD_APDU) if cla & 4 else r"0 %02x010203[0-9a-f]+" % (cla | 4)
         bag.add("smcw %s %s %d 1 2 3 aabbcc 7" % (K0, ctr_hex(1), cla), want, "sm:cmdwrap:cla", "CLA handling of btokSMCmdWrap")
+        if not cla & 4:
+            st["cw"].append((len(bag.ops) - 1, K0, 1, (cla, 1, 2, 3, bytes.fromhex("aabbcc"), 7)))
+    # full-octet sweeps of INS, P1, P2 (and of CLA above): the header must come back unchanged from wrap -> unwrap (stage 2)
+    for pos in (1, 2, 3):
+        for v in range(256):
+            hdr = [0x80 if pos != 0 else 0, 0xA4, 0x04, 0x0C]
+            hdr[pos] = v
+            hdr[0] = (v * 8) & 0xF8 & 0xFB
+            cdf = bytes([v]) if v % 3 else b""
+            le = (0, 1, 256)[v % 3]
+            bag.add("smcw %s %s %d %d %d %d %s %d" % (K0, ctr_hex(3), hdr[0], hdr[1], hdr[2], hdr[3], hx(cdf), le),
+                    r"0 %02x%02x%02x%02x[0-9a-f]+" % (hdr[0] | 4, hdr[1], hdr[2], hdr[3]), "sm:cmdwrap:hdr",
+                    "btokSMCmdWrap altered INS / P1 / P2 (or CLA bits other than 0x04)")
+            st["cw"].append((len(bag.ops) - 1, K0, 3, (hdr[0], hdr[1], hdr[2], hdr[3], cdf, le)))
     for le in (65537, 1 << 32):
         bag.add("smcw %s %s 0 1 2 3 aabbcc %d" % (K0, ctr_hex(1), le), str(BAD_APDU), "sm:cmdwrap:invalid", "invalid command accepted")
     bag.add("smcw %s %s 0 1 2 3 %s 0" % (K0, ctr_hex(1), "5a" * 65536), str(BAD_APDU), "sm:cmdwrap:invalid", "invalid command accepted")
@@ -547,6 +561,12 @@ def cvc_stage(ctx, bag, run_c):
             bdy = body_der(dict(b0, **{who: nm}))
             bag.add("cvcbdec " + hx(bdy), "err" if ln not in range(8, 13) else r"[0-9a-f-]+ .* %d" % len(bdy), "cvc:body:namelen",
                     "btokCVCBodyDec with a %d-character name" % ln)
+    # over-long names on the wire: the decoder must refuse them BEFORE copying (the struct fields hold 12 characters + NUL;
+    # the harness decodes into an exact-size heap block, so a copy of a name longer than the rest of the struct is an ASan report)
+    for ln in (15, 16, 64, 127, 128, 200, 255, 256, 300, 1000, 5000):
+        nm = (b"ABCDEFGHIJKLMNOPQRSTUVWXYZ0123456789" * 140)[:ln]
+        for who in ("a", "h"):
+            bag.add("cvcbdec " + hx(body_der(dict(b0, **{who: nm}))), "err", "cvc:body:namelen", "btokCVCBodyDec with a %d-character name" % ln)
     bag.add("cvcbdec " + hx(body_der(dict(b0, h=b"BYCA*1000"))), "err", "cvc:body:printable", "non-printable name in a certificate body accepted")
     for pk in (rng.randbytes(40), rng.randbytes(65), b"", rng.randbytes(47), rng.randbytes(129)):
         bag.add("cvcbdec " + hx(body_der(dict(b0, pk=pk))), "err", "cvc:body:keylen", "public key of %d octets in a certificate body accepted" % len(pk))
@@ -745,7 +765,9 @@ def bpki_stage1(ctx, bag, st):
             ("pk", kl[(b + 2) % 4], 65535, not quick), ("pk", kl[(b + 3) % 4], 65536, not quick), ("sh", sl[(b + 2) % 3], 65536, not quick)]
     if not quick:
         plan += [("pk", n, it, True) for n in kl for it in (10001, 32768)] + [("sh", n, it, True) for n in sl for it in (10001, 32767)]
-        plan += [("sh", sl[b % 3], 65535, True), ("pk", kl[b % 4], 8388607, False), ("sh", sl[(b + 1) % 3], 8388608, False)]
+        # 8388608 (iterCount grows to 4 content octets) costs ~45 s of PBKDF2 per call on the ASan build: one container per run,
+        # implementation only; 8388607 and everything above are covered by the sizing-pass ops
+        plan += [("sh", sl[b % 3], 65535, True), (("pk", kl[b % 4], 8388608, False) if b % 2 else ("sh", sl[(b + 1) % 3], 8388608, False))]
     for j, (kind, n, it, lean) in enumerate(plan):
         payload = rng.randbytes(n) if kind == "pk" else bytes([rng.choice([1, 16, rng.randrange(1, 17)])]) + rng.randbytes(n - 1)
         add(kind, payload, pwds[(j + ctx.seed) % 4], rng.randbytes(8), it, r"0 [0-9a-f]{%d}" % (2 * epki_len_ref(kind, n, it)), "bpki:wrap:iterlen",
@@ -789,7 +811,8 @@ def bpki_stage2(ctx, bag, st, c_out):
                 "Unwrap(Wrap(key, pwd), pwd) does not return the key (iter = %d)" % it, lean=lean)
         if it > 20000:
             # costly PBKDF2: one wrong password, nothing else
-            bag.add("%s %s %s" % (un, hx(e), hx(pwd + b"\1")), str(BAD_KEYTOKEN), "bpki:wrongpwd", "container opened with a wrong password", lean=lean and it < 40000)
+            if it < 100000:
+                bag.add("%s %s %s" % (un, hx(e), hx(pwd + b"\1")), str(BAD_KEYTOKEN), "bpki:wrongpwd", "container opened with a wrong password", lean=lean and it < 40000)
             continue
         other = "shunwrap" if kind == "pk" else "pkunwrap"
         bag.add("%s %s %s" % (other, hx(e), hx(pwd)), str(BAD_FORMAT), "bpki:unwrap:kind", "container of the other kind accepted")
@@ -1048,15 +1071,24 @@ def c19_stream():
         bpki_stage2(sh, b2, st, o1)
         b3 = Bag()
         cvc_stage(sh, b3, run_c)
-        ops, keys = b1.ops + b2.ops + b3.ops, b1.key + b2.key + b3.key
+        ops, keys = [], []
+        for b in (b1, b2, b3):          # only ops the model side is meant to run
+            for o, k, l in zip(b.ops, b.key, b.lean):
+                if l:
+                    ops.append(o)
+                    keys.append(k)
         CRYPTO = ("cvcwrap", "cvciss", "cvcunwrap", "cvcval", "cvcval2", "cvcmatch", "sigvfy", "pubcalc")
 
         def cls(op):
             t = op.split()
             if t[0] in ("pkwrap", "shwrap") and int(t[4]) >= 10000:
                 return "pbkdf"
-            if t[0] in ("pkunwrap", "shunwrap") and "0202271" in t[1]:
-                return "pbkdf"
+            if t[0] in ("pkunwrap", "shunwrap"):
+                m = re.search(r"0408[0-9a-f]{16}02(0[1-8])", t[1])
+                if m:
+                    k = int(m.group(1), 16)
+                    if int(t[1][m.end():m.end() + 2 * k] or "0", 16) >= 5000:
+                        return "pbkdf"
             if len(op) > 20000:
                 return "long"
             if t[0] in CRYPTO:
